@@ -230,12 +230,12 @@ Proof.
 Qed.
 
 (* ---------------------------------------------------------------- the decision node of a no_op *)
-Lemma group_sim_noop_inv phi cn ps y : group_sim phi cn (GNoOp ps None) y -> y = CGNoOp ps None /\ Forall (fun p => c_cname (snd p) = []) ps.
+Lemma group_sim_noop_inv phi cn ps y : group_sim phi cn (GNoOp ps None) y -> y = CGNoOp ps None /\ Forall (fun p => cond_ok (snd p)) ps.
 Proof. intros H. inversion H; subst. auto. Qed.
 
 Lemma group_sim_noop_router_inv phi cn ps k y :
   group_sim phi cn (GNoOp ps (Some k)) y ->
-  exists k1 nd r, y = CGNoOp ps (Some k1) /\ Forall (fun p => c_cname (snd p) = []) ps /\ nth_error phi k = Some (k1, None)
+  exists k1 nd r, y = CGNoOp ps (Some k1) /\ Forall (fun p => cond_ok (snd p)) ps /\ nth_error phi k = Some (k1, None)
                   /\ nth_error cn k1 = Some nd /\ cn_body nd = BSwitch SPlain r.
 Proof. intros H. inversion H; subst. eauto 10. Qed.
 
@@ -266,11 +266,11 @@ Lemma noop_edge_sim phi sr sc k k1 ndq rq c tgt dd n d sc' :
   Sim phi sr sc -> StOK fresh GP sc -> nth_error phi k = Some (k1, None) ->
   nth_error (cs_nodes sc) k1 = Some ndq -> cn_body ndq = BSwitch SPlain rq ->
   nth_error (s_nodes sr) k = Some n -> rn_dec n = Some d -> rn_actions n = [] ->
-  c_cname c = [] -> dest_sim phi (cuu sc) tgt dd ->
+  cond_ok c -> dest_sim phi (cuu sc) tgt dd ->
   noop_router_edge fresh sc k1 dd c = Ok sc' ->
   Sim phi (RowSem.set_node sr k (mkRNode [] (Some (noop_case nab d c tgt)) DNone)) sc'.
 Proof.
-  intros Hsim Hst Hc0 Hnq Hbq Hk Hdec Hact Hcn Hd. unfold noop_router_edge. rewrite Hnq, Hbq.
+  intros Hsim Hst Hc0 Hnq Hbq Hk Hdec Hact (Hcn & _ & Hna) Hd. unfold noop_router_edge. rewrite Hnq, Hbq.
   destruct (sim_nodes _ _ _ Hsim k n _ Hk Hc0) as (nd & o & Hcl & Hns). unfold cluster_nodes in Hcl. cbn in Hcl. rewrite Hnq in Hcl.
   injection Hcl as <- <-. inversion Hns as [? ? e H1 H2|? ? cls r d0 H1 H2 H3 H4 H5|]; subst; [congruence|].
   assert (d0 = d) by congruence. subst d0. assert (cls = SPlain /\ r = rq) as [-> ->] by (rewrite Hbq in H2; injection H2; auto).
@@ -279,14 +279,14 @@ Proof.
   unfold noop_case. destruct (c_value c) as [|v0 v] eqn:Ev; cbn [nonempty negb andb].
   - unfold nab. destruct (memb (c_type c) no_args_tests) eqn:Em; cbn [negb andb].
     + destruct (sw_add_choice fresh (cs_next sc) rq _ _ _ _ _ _) as [[r' n1]|x] eqn:Ea; [|discriminate]. intros H. injection H as <-.
-      rewrite Hcn in Ea.
-      destruct (dec_sim_add_case fresh fresh_inj phi (cuu sc) _ _ d rq (c_variable c) (c_type c) [] [Some []] tgt dd r' n1 H4 H5 Hok Hd Ea) as [Hds' Hpl'].
+      rewrite Hcn, Hna in Ea.
+      destruct (dec_sim_add_case fresh fresh_inj phi (cuu sc) _ _ d rq (c_variable c) (c_type c) [] (ref_args c) tgt dd r' n1 H4 H5 Hok Hd Ea) as [Hds' Hpl'].
       rewrite Hcn. eapply (Sim_dec_update fresh fresh_inj phi sr sc k n (k1, None)); eauto.
     + intros H. injection H as <-.
       eapply (Sim_dec_update fresh fresh_inj phi sr sc k n (k1, None)); eauto; try (apply dec_sim_set_default; assumption); try exact H5.
   - destruct (sw_add_choice fresh (cs_next sc) rq _ _ _ _ _ _) as [[r' n1]|x] eqn:Ea; [|discriminate]. intros H. injection H as <-.
-    rewrite Hcn in Ea.
-    destruct (dec_sim_add_case fresh fresh_inj phi (cuu sc) _ _ d rq (c_variable c) (c_type c) (v0 :: v) [Some (v0 :: v)] tgt dd r' n1 H4 H5 Hok Hd Ea) as [Hds' Hpl'].
+    rewrite Hcn, Hna in Ea.
+    destruct (dec_sim_add_case fresh fresh_inj phi (cuu sc) _ _ d rq (c_variable c) (c_type c) (v0 :: v) (ref_args c) tgt dd r' n1 H4 H5 Hok Hd Ea) as [Hds' Hpl'].
     rewrite Hcn. eapply (Sim_dec_update fresh fresh_inj phi sr sc k n (k1, None)); eauto.
 Qed.
 
@@ -375,7 +375,7 @@ Lemma fold_left_none {X} (f : st -> X -> option st) l :
 Proof. induction l as [|a r IH]; cbn; [reflexivity|exact IH]. Qed.
 
 Lemma add_exit_sim fuel : forall phi sr sc g c tgt dd sr' sc',
-  Sim phi sr sc -> StOK fresh GP sc -> c_cname c = [] -> dest_sim phi (cuu sc) tgt dd ->
+  Sim phi sr sc -> StOK fresh GP sc -> cond_ok c -> dest_sim phi (cuu sc) tgt dd ->
   add_exit nab fuel sr g c tgt = Some sr' -> cadd_exit fresh fuel sc g dd c = Ok sc' ->
   exists phi', Sim phi' sr' sc' /\ phi_le phi phi' /\ StOK fresh GP sc' /\ ext sc sc' /\ gframe sr sr' /\ pframe sr phi phi'.
 Proof.
@@ -389,7 +389,7 @@ Proof.
   destruct (Forall2_nth _ _ _ _ _ Hg Ex) as (y & Ey & Hxy). rewrite Ey in Hc.
   (* the parents of a no_op, one after the other *)
   assert (Hfold : forall (ps : list (nat * econd)) t0 d0 phi0 s0 c0 s1 c1,
-             Forall (fun p => c_cname (snd p) = []) ps -> Sim phi0 s0 c0 -> StOK fresh GP c0 -> dest_sim phi0 (cuu c0) t0 d0 ->
+             Forall (fun p => cond_ok (snd p)) ps -> Sim phi0 s0 c0 -> StOK fresh GP c0 -> dest_sim phi0 (cuu c0) t0 d0 ->
              fold_left (fun os p => match os with Some s' => add_exit nab f s' (fst p) (snd p) t0 | None => None end) ps (Some s0) = Some s1 ->
              foldM (fun s' p => cadd_exit fresh f s' (fst p) d0 (snd p)) ps c0 = Ok c1 ->
              exists phi', Sim phi' s1 c1 /\ phi_le phi0 phi' /\ StOK fresh GP c1 /\ ext c0 c1 /\ gframe s0 s1 /\ pframe s0 phi0 phi').
